@@ -56,6 +56,8 @@ pub fn registry() -> Vec<(&'static str, fn(&mut src::Tape))> {
     let mut v: Vec<(&'static str, fn(&mut src::Tape))> = Vec::new();
     #[cfg(feature = "c01")]
     v.extend_from_slice(c01::ALL);
+    #[cfg(feature = "c01full")]
+    v.extend_from_slice(c01::FULL);
     #[cfg(feature = "c02")]
     v.extend_from_slice(c02::ALL);
     #[cfg(feature = "c03")]
